@@ -241,7 +241,7 @@ func genContent(t *rapid.T, w string) []byte {
 		}
 		return b
 	}
-	kind := rapid.IntRange(0, 12).Draw(t, "ckind")
+	kind := rapid.IntRange(0, 14).Draw(t, "ckind")
 	if w == "CODE128" && rapid.Bool().Draw(t, "c128") {
 		// digits, letters, controls and the FNC1..FNC4 escape characters in short mixtures
 		n := rapid.IntRange(1, 12).Draw(t, "n128")
@@ -323,6 +323,20 @@ func genContent(t *rapid.T, w string) []byte {
 			b = append(b, []byte{'a', 0xC3, 0xA9, '~'}[rng.Intn(4)])
 		}
 		return b
+	case 13, 14: // runs of each encodation's native characters, each run followed by a character that is rare in it
+		classes := []string{"abcdefghij klm", "ABCDEFGHIJ KLM", "0123456789", "AB>CD*EF\r12", "A.B-C/D:E;F,", "\u00e9\u00e8\u00d0\u00a0", "!\"#$%&'()"}
+		rare := []rune{0x7f, 0xff, 0x80, 0x00, 0x1f, '`', '{', '~', 0x1e, 0x04, 0x60, 0x5b, 0x40, 0x9f}
+		var sb strings.Builder
+		for r, nr := 0, rapid.IntRange(1, 6).Draw(t, "nruns"); r < nr; r++ {
+			cl := []rune(classes[rng.Intn(len(classes))])
+			for i, n := 0, 1+rng.Intn(14); i < n; i++ {
+				sb.WriteRune(cl[rng.Intn(len(cl))])
+			}
+			if rng.Intn(3) != 0 {
+				sb.WriteRune(rare[rng.Intn(len(rare))])
+			}
+		}
+		return []byte(sb.String())
 	case 9: // wrong characters for 1-D
 		return []byte("12345-ABC$/+%. *")
 	case 12: // decimal digits of other scripts (valid UTF-8, not ASCII), alone or mixed with ASCII digits
@@ -425,6 +439,34 @@ func TestCheck(t *testing.T) {
 	hx.Main(t, "C12", func(c *hx.Ctx) {
 		c.Register("encode_total", check)
 	}, func(c *hx.Ctx) {
+		// every character value after a prefix that has put the Data Matrix encoder into each of its
+		// encodation modes (and alone), through the writer: it must return
+		{
+			prefixes := []string{"", "qszglpuxge", "QSZGLPUXGE", "AB>CD>EF>GH>", "A.B-C/D:E;F,", "\u00e9\u00e8\u00ea\u00eb\u00ec\u00ed", "12345678"}
+			var dm *wentry
+			for wi := range writers {
+				if writers[wi].kind == "dm" {
+					dm = &writers[wi]
+				}
+			}
+			idx := 0
+			for _, pfx := range prefixes {
+				for v := 0; v < 256 && dm != nil; v++ {
+					for _, tail := range []string{"", "ab", "AB1"} {
+						idx++
+						if !c.Mine(idx) {
+							continue
+						}
+						cs := Case{Writer: dm.name, Content: []byte(pfx + string(rune(v)) + tail), Format: int(dm.format)}
+						c.Note("dm_all_chars_after_each_mode", fmt.Sprintf("prefix=%q", pfx), true, hx.HashS("dmchars", string(cs.Content)), func() any { return cs })
+						if !c.Enum("dm_all_chars_after_each_mode", "encode_total", cs, nil) {
+							break
+						}
+					}
+				}
+			}
+			c.SetExhaustive("dm_all_chars_after_each_mode", true)
+		}
 		for wi := range writers {
 			we := writers[wi]
 			sub := "encode_" + we.name
